@@ -927,6 +927,13 @@ func c05Helper(call ssa.CallInstruction, from *ssa.Function) *ssa.Function {
 func (e *c05Env) up(v ssa.Value) (ssa.Value, *c05Env) {
 	cur := e
 	for i := 0; i < 12; i++ {
+		// value identity through struct fields that merely carry a value: a load of x.F where x is a
+		// struct literal built in this function or, for a method on a freshly built carrier struct,
+		// in the caller (closure turned into a struct with methods)
+		if nv, nat, ok := c05FieldCarry(v, cur); ok {
+			v, cur = nv, nat
+			continue
+		}
 		w := c05Unspill(v)
 		var p *ssa.Parameter
 		if q, ok := w.(*ssa.Parameter); ok {
@@ -1454,4 +1461,308 @@ func c05EmptyStrEdges(fn *ssa.Function, isX func(v ssa.Value) bool) (empty, nonE
 		}
 	}
 	return
+}
+
+// ---------------------------------------------------------------- fact-aware reachability
+
+// c05Facts: what is known about SSA values on the path walked so far (SSA
+// values are immutable, so a test's outcome stays valid until a back edge
+// re-executes the definitions).
+type c05Facts struct {
+	isNil  map[ssa.Value]bool
+	isTrue map[ssa.Value]bool
+}
+
+func c05NewFacts() *c05Facts {
+	return &c05Facts{isNil: map[ssa.Value]bool{}, isTrue: map[ssa.Value]bool{}}
+}
+
+func (f *c05Facts) clone() *c05Facts {
+	n := c05NewFacts()
+	for k, v := range f.isNil {
+		n.isNil[k] = v
+	}
+	for k, v := range f.isTrue {
+		n.isTrue[k] = v
+	}
+	return n
+}
+
+func (f *c05Facts) sig() string {
+	var parts []string
+	for k, v := range f.isNil {
+		parts = append(parts, fmt.Sprintf("n%s=%v", k.Name(), v))
+	}
+	for k, v := range f.isTrue {
+		parts = append(parts, fmt.Sprintf("t%s=%v", k.Name(), v))
+	}
+	sort.Strings(parts)
+	return strings.Join(parts, ",")
+}
+
+// c05CondAtom decomposes a branch condition into (subject, kind, polarity on
+// the true edge): kind "nil" for x==nil / x!=nil, "bool" otherwise.
+func c05CondAtom(cond ssa.Value) (subj ssa.Value, kind string, pol bool) {
+	pol = true
+	for {
+		u, ok := cond.(*ssa.UnOp)
+		if !ok || u.Op != token.NOT {
+			break
+		}
+		cond, pol = u.X, !pol
+	}
+	if bo, ok := cond.(*ssa.BinOp); ok && (bo.Op == token.EQL || bo.Op == token.NEQ) {
+		var x ssa.Value
+		if isNilConst(bo.Y) {
+			x = bo.X
+		} else if isNilConst(bo.X) {
+			x = bo.Y
+		}
+		if x != nil {
+			if bo.Op == token.NEQ {
+				pol = !pol
+			}
+			return x, "nil", pol
+		}
+	}
+	return cond, "bool", pol
+}
+
+// resolvePhi: the operand a phi of block b takes when b is entered from pred.
+func c05PhiOperand(v ssa.Value, b, pred *ssa.BasicBlock) ssa.Value {
+	for i := 0; i < 4; i++ {
+		phi, ok := v.(*ssa.Phi)
+		if !ok || phi.Block() != b || pred == nil {
+			return v
+		}
+		found := false
+		for k, p := range b.Preds {
+			if p == pred {
+				v, found = phi.Edges[k], true
+				break
+			}
+		}
+		if !found {
+			return v
+		}
+	}
+	return v
+}
+
+// c05EdgeFacts: the facts established by taking edge e (the outcome of the
+// test that ends e.From).
+func c05EdgeFacts(e Edge) *c05Facts {
+	f := c05NewFacts()
+	if e.From == nil || len(e.From.Instrs) == 0 {
+		return f
+	}
+	ifi, ok := e.From.Instrs[len(e.From.Instrs)-1].(*ssa.If)
+	if !ok || e.From.Succs[0] == e.From.Succs[1] {
+		return f
+	}
+	subj, kind, pol := c05CondAtom(ifi.Cond)
+	val := pol
+	if e.To != e.From.Succs[0] {
+		val = !pol
+	}
+	if kind == "nil" {
+		f.isNil[subj] = val
+	} else {
+		f.isTrue[subj] = val
+	}
+	return f
+}
+
+// c05ReachF is reach() with pruning of branches that contradict what earlier
+// tests on the same path established (including through phi operands selected
+// by the edge taken).  visit, when non-nil, is called for every Return
+// reached (and the search continues); otherwise the search stops at `to`.
+func c05ReachF(fromB *ssa.BasicBlock, fromIdx int, fromPred *ssa.BasicBlock, to ssa.Instruction, ct *cut, init *c05Facts, visit func(r *ssa.Return, pred *ssa.BasicBlock)) bool {
+	type key struct {
+		b, pred *ssa.BasicBlock
+		sig     string
+	}
+	seen := map[key]bool{}
+	if init == nil {
+		init = c05NewFacts()
+	}
+	budget := 20000
+	var scan func(b, pred *ssa.BasicBlock, i int, f *c05Facts) bool
+	scan = func(b, pred *ssa.BasicBlock, i int, f *c05Facts) bool {
+		if budget <= 0 {
+			return true // give up: assume reachable (sound for must-pass checks)
+		}
+		budget--
+		for ; i < len(b.Instrs); i++ {
+			in := b.Instrs[i]
+			if to != nil && in == to {
+				return true
+			}
+			if ct != nil && ct.instrs[in] {
+				return false
+			}
+			if r, ok := in.(*ssa.Return); ok && visit != nil {
+				visit(r, pred)
+				return false
+			}
+		}
+		var ifi *ssa.If
+		if n := len(b.Instrs); n > 0 {
+			ifi, _ = b.Instrs[n-1].(*ssa.If)
+		}
+		for si, s := range b.Succs {
+			if ct != nil && ct.edges[Edge{b, s}] {
+				continue
+			}
+			nf := f
+			if ifi != nil && b.Succs[0] != b.Succs[1] {
+				subj, kind, pol := c05CondAtom(ifi.Cond)
+				want := pol
+				if si == 1 {
+					want = !pol
+				}
+				res := c05PhiOperand(subj, b, pred)
+				m := f.isTrue
+				if kind == "nil" {
+					m = f.isNil
+				}
+				if have, known := m[subj]; known && have != want {
+					continue
+				}
+				if have, known := m[res]; known && have != want {
+					continue
+				}
+				if kind == "bool" {
+					if k, isK := res.(*ssa.Const); isK && k.Value != nil && (k.Value.String() == "true") != want {
+						continue
+					}
+				}
+				if kind == "nil" {
+					st := ErrNilStatus(res, 0)
+					if _, isErr := res.Type().Underlying().(*types.Interface); isErr && ((st == NonNil && want) || (st == IsNil && !want)) {
+						continue
+					}
+				}
+				nf = f.clone()
+				if kind == "nil" {
+					nf.isNil[subj], nf.isNil[res] = want, want
+				} else {
+					nf.isTrue[subj], nf.isTrue[res] = want, want
+				}
+			}
+			if s.Dominates(b) {
+				nf = c05NewFacts() // back edge: definitions are re-executed
+			}
+			k := key{s, b, nf.sig()}
+			if seen[k] {
+				continue
+			}
+			seen[k] = true
+			if scan(s, b, 0, nf) {
+				return true
+			}
+		}
+		return false
+	}
+	return scan(fromB, fromPred, fromIdx, init)
+}
+
+// c05ErrFlow is ErrFlow with one more piece of path sensitivity: once the
+// error has been found non-nil, later tests of the very same value cannot
+// take their nil edge (`switch { case err == nil && …: case err == nil: case
+// errors.Is(err, X): default: return err }`).
+func c05ErrFlow(call ssa.CallInstruction, o ErrFlowOpts) ErrFlowResult {
+	r := ErrFlow(call, o)
+	if r.OK {
+		return r
+	}
+	fn := call.Parent()
+	errIdx := ErrResultIndex(fn.Signature)
+	e := ErrOf(call)
+	if _, isDefer := call.(*ssa.Defer); isDefer || e == nil || errIdx < 0 {
+		return r
+	}
+	aliases := Aliases(e)
+	nilE, nonNilE, ifs := NilTests(fn, aliases)
+	if len(ifs) == 0 {
+		return r
+	}
+	ct := newCut().Edges(toleratedEdges(fn, aliases, o.Tolerated)...).Edges(nilE...)
+	ct.Instr(call.(ssa.Instruction))
+	for _, ne := range nonNilE {
+		bad := false
+		c05ReachF(ne.To, 0, ne.From, nil, ct, c05EdgeFacts(ne), func(rt *ssa.Return, pred *ssa.BasicBlock) {
+			for _, val := range resolveAt(rt.Results[errIdx], rt.Block(), pred, rt, aliases) {
+				if aliases[val] || aliases[strip(val)] || ErrNilStatus(val, 0) == NonNil || derivesFromAny(val, aliases, 0) {
+					continue
+				}
+				bad = true
+			}
+		})
+		if bad {
+			return r
+		}
+	}
+	return ErrFlowResult{OK: true, How: "tested; every failure path returns a non-nil error (repeated tests of the same error resolved)"}
+}
+
+// c05FieldCarry: v is a load of field F of a struct that was built as a
+// literal (new T; stores to its fields) either in cur.Fn itself or — when the
+// struct is cur.Fn's parameter/receiver — at the call site in the parent, and
+// F is stored exactly once there: v is that stored value.
+func c05FieldCarry(v ssa.Value, cur *c05Env) (ssa.Value, *c05Env, bool) {
+	ld, ok := strip(v).(*ssa.UnOp)
+	if !ok || ld.Op != token.MUL {
+		return nil, nil, false
+	}
+	fa, ok := ld.X.(*ssa.FieldAddr)
+	if !ok {
+		return nil, nil, false
+	}
+	base, at := fa.X, cur
+	if p, isP := strip(base).(*ssa.Parameter); isP && cur.Call != nil && cur.Parent != nil && p.Parent() == cur.Fn {
+		idx := -1
+		for k, q := range cur.Fn.Params {
+			if q == p {
+				idx = k
+			}
+		}
+		args := cur.Call.Common().Args
+		if idx < 0 || idx >= len(args) {
+			return nil, nil, false
+		}
+		base, at = args[idx], cur.Parent
+	}
+	var lit *ssa.Alloc
+	for _, r := range Roots(base) {
+		a, isA := strip(r).(*ssa.Alloc)
+		if !isA || lit != nil {
+			return nil, nil, false
+		}
+		lit = a
+	}
+	if lit == nil || lit.Parent() != at.Fn {
+		return nil, nil, false
+	}
+	if _, isStruct := lit.Type().(*types.Pointer).Elem().Underlying().(*types.Struct); !isStruct {
+		return nil, nil, false
+	}
+	var val ssa.Value
+	n := 0
+	for _, r := range *lit.Referrers() {
+		fa2, isFA := r.(*ssa.FieldAddr)
+		if !isFA || fa2.Field != fa.Field {
+			continue
+		}
+		for _, r2 := range *fa2.Referrers() {
+			if st, isSt := r2.(*ssa.Store); isSt && st.Addr == ssa.Value(fa2) {
+				val = st.Val
+				n++
+			}
+		}
+	}
+	if n != 1 {
+		return nil, nil, false
+	}
+	return val, at, true
 }
